@@ -4,6 +4,7 @@
 #[allow(dead_code)]
 #[path = "../../../harness/vh/src/codec.rs"]
 mod codec;
+mod facades;
 mod formatter;
 mod intoiter;
 mod mutation;
@@ -25,6 +26,7 @@ fn main() {
         "x02" => formatter::run(&cfg),
         "x05" => options::run(&cfg),
         "x07" => intoiter::run(&cfg),
+        "x08" => facades::run(&cfg),
         other => {
             eprintln!("unknown command {}", other);
             std::process::exit(2);
